@@ -8,6 +8,7 @@
 From Bnum Require Import Base Prim.
 From Bnum.Model Require Import Digit Core Shift AddSub Mul Div Bits Random.
 From Bnum.Proofs Require Import RandomZ RandomDeps Random.
+From Bnum.Proofs Require Import DischargeRandom.
 
 (* ---------- accept_bij (DESIGN A.5): pure arithmetic, every BITS ---------- *)
 
@@ -30,8 +31,7 @@ Print Assumptions C20_accept_count.
 
 (* the same on the model's digit arrays: one loop iteration accepts word v with offset h iff
    v0(h) <= uval v < v0(h) + q *)
-Theorem C20_model_accept_bij : widening_mul_spec ->
-  forall w n range zone q,
+Theorem C20_model_accept_bij : forall w n range zone q,
   0 < w -> wf w n range -> wf w n zone -> 0 < uval w range ->
   uval w zone + 1 = uval w range * q ->
   forall h, 0 <= h < uval w range ->
@@ -41,13 +41,12 @@ Theorem C20_model_accept_bij : widening_mul_spec ->
     forall v, wf w n v ->
       ((cmp_le (ucmp (fst (U_widening_mul w v range)) zone) = true /\
         uval w (snd (U_widening_mul w v range)) = h) <-> v0 <= uval w v < v0 + q).
-Proof. exact model_accept_bij. Qed.
+Proof. exact (model_accept_bij widening_mul_spec_holds). Qed.
 Print Assumptions C20_model_accept_bij.
 
 (* unbiased by construction: for EVERY value t of [low, high] (signed ranges spanning zero included)
    the words on which one iteration of the loop returns t are v0(t-low) .. v0(t-low)+q-1 — q of them *)
-Theorem C20_one_draw_preimages : widening_mul_spec -> wrapping_add_spec -> wrapping_sub_spec ->
-  forall sg w n low high zone q,
+Theorem C20_one_draw_preimages : forall sg w n low high zone q,
   0 < w -> (0 < n)%nat -> wf w n low -> wf w n high -> wf w n zone ->
   tval sg w low <= tval sg w high ->
   let range := range_of sg w low high in
@@ -58,7 +57,7 @@ Theorem C20_one_draw_preimages : widening_mul_spec -> wrapping_add_spec -> wrapp
     (0 <= v0 /\ v0 + q <= Mod w n) /\
     forall v, wf w n v ->
       ((exists r, one_draw sg w low range zone v = Some r /\ tval sg w r = t) <-> v0 <= uval w v < v0 + q).
-Proof. exact one_draw_preimages. Qed.
+Proof. exact (one_draw_preimages widening_mul_spec_holds wrapping_add_spec_holds wrapping_sub_spec_holds). Qed.
 Print Assumptions C20_one_draw_preimages.
 
 (* one_draw is what the loop does with the word it reads *)
@@ -75,18 +74,16 @@ Print Assumptions C20_loop_is_one_draw.
 (* ... and with the zone the code itself computes (sample_single_inclusive: either formula;
    Uniform::sample: MAX - z): every value of a non-full range has the same number q > 0 of preimages *)
 Theorem C20_sample_single_inclusive_unbiased :
-  widening_mul_spec -> wrapping_add_spec -> wrapping_sub_spec -> rem_spec -> shl_spec -> leading_zeros_spec ->
   forall sg dbg w n low high zone,
   0 < w -> (0 < n)%nat -> wf w n low -> wf w n high ->
   tval sg w low <= tval sg w high ->
   uval w (range_of sg w low high) <> 0 ->
   single_zone dbg w (range_of sg w low high) = Ret zone ->
   equal_preimages sg w n low high zone.
-Proof. exact sample_single_inclusive_unbiased. Qed.
+Proof. exact (sample_single_inclusive_unbiased widening_mul_spec_holds wrapping_add_spec_holds wrapping_sub_spec_holds rem_spec_holds shl_spec_holds leading_zeros_spec_holds). Qed.
 Print Assumptions C20_sample_single_inclusive_unbiased.
 
 Theorem C20_uniform_sample_unbiased :
-  widening_mul_spec -> wrapping_add_spec -> wrapping_sub_spec -> rem_spec ->
   forall sg dbg w n low high u zone,
   0 < w -> (0 < n)%nat -> wf w n low -> wf w n high ->
   tval sg w low <= tval sg w high ->
@@ -94,7 +91,7 @@ Theorem C20_uniform_sample_unbiased :
   uniform_new_inclusive sg dbg w low high = Ret u ->
   U_sub dbg w (UMAX w (length (u_range u))) (u_z u) = Ret zone ->
   equal_preimages sg w n low high zone.
-Proof. exact uniform_sample_unbiased. Qed.
+Proof. exact (uniform_sample_unbiased widening_mul_spec_holds wrapping_add_spec_holds wrapping_sub_spec_holds rem_spec_holds). Qed.
 Print Assumptions C20_uniform_sample_unbiased.
 
 (* ---------- zone_ok ---------- *)
@@ -114,25 +111,23 @@ Proof. exact zone_ok_shift. Qed.
 Print Assumptions C20_zone_ok_shift.
 
 (* the zone computed by sample_single_inclusive (either formula), whenever it is computed *)
-Theorem C20_single_zone_ok : wrapping_sub_spec -> rem_spec -> shl_spec -> leading_zeros_spec ->
-  forall dbg w n range zone,
+Theorem C20_single_zone_ok : forall dbg w n range zone,
   0 < w -> (0 < n)%nat -> wf w n range -> 0 < uval w range ->
   single_zone dbg w range = Ret zone ->
   wf w n zone /\ 0 <= uval w zone < Mod w n /\
   exists q, uval w zone + 1 = uval w range * q /\
             (q = Mod w n / uval w range \/ q = 2 ^ (bits w n - bitlen (uval w range))).
-Proof. exact single_zone_ok. Qed.
+Proof. exact (single_zone_ok wrapping_sub_spec_holds rem_spec_holds shl_spec_holds leading_zeros_spec_holds). Qed.
 Print Assumptions C20_single_zone_ok.
 
 (* the zone used by Uniform::sample: MAX - z with z as stored by new_inclusive *)
-Theorem C20_uniform_zone_ok : wrapping_sub_spec -> rem_spec ->
-  forall sg dbg w n low high u zone,
+Theorem C20_uniform_zone_ok : forall sg dbg w n low high u zone,
   0 < w -> (0 < n)%nat -> wf w n low -> wf w n (range_of sg w low high) -> 0 < uval w (range_of sg w low high) ->
   uniform_new_inclusive sg dbg w low high = Ret u ->
   U_sub dbg w (UMAX w (length (u_range u))) (u_z u) = Ret zone ->
   wf w n zone /\ 0 <= uval w zone < Mod w n /\
   uval w zone + 1 = uval w (u_range u) * (Mod w n / uval w (u_range u)).
-Proof. exact uniform_zone_ok. Qed.
+Proof. exact (uniform_zone_ok wrapping_sub_spec_holds rem_spec_holds). Qed.
 Print Assumptions C20_uniform_zone_ok.
 
 (* ---------- standard: little-endian decoding, all 2^BITS values reachable ---------- *)
@@ -185,42 +180,38 @@ Print Assumptions C20_fill_slice_element.
 
 (* ---------- in_range ---------- *)
 
-Theorem C20_sample_single_inclusive_in_range : widening_mul_spec -> wrapping_add_spec -> wrapping_sub_spec ->
-  forall fuel sg dbg w n low high s r rest,
+Theorem C20_sample_single_inclusive_in_range : forall fuel sg dbg w n low high s r rest,
   0 < w -> (0 < n)%nat -> wf w n low -> wf w n high -> bytes_ok s ->
   tval sg w low <= tval sg w high ->
   sample_single_inclusive fuel sg dbg w low high s = RVal r rest ->
   wf w n r /\ tval sg w low <= tval sg w r <= tval sg w high.
-Proof. exact sample_single_inclusive_in_range. Qed.
+Proof. exact (sample_single_inclusive_in_range widening_mul_spec_holds wrapping_add_spec_holds wrapping_sub_spec_holds). Qed.
 Print Assumptions C20_sample_single_inclusive_in_range.
 
-Theorem C20_uniform_new_inclusive_sample_in_range : widening_mul_spec -> wrapping_add_spec -> wrapping_sub_spec ->
-  forall fuel sg dbg w n low high s r rest,
+Theorem C20_uniform_new_inclusive_sample_in_range : forall fuel sg dbg w n low high s r rest,
   0 < w -> (0 < n)%nat -> wf w n low -> wf w n high -> bytes_ok s ->
   tval sg w low <= tval sg w high ->
   uniform_new_inclusive_sample fuel sg dbg w low high s = RVal r rest ->
   wf w n r /\ tval sg w low <= tval sg w r <= tval sg w high.
-Proof. exact uniform_new_inclusive_sample_in_range. Qed.
+Proof. exact (uniform_new_inclusive_sample_in_range widening_mul_spec_holds wrapping_add_spec_holds wrapping_sub_spec_holds). Qed.
 Print Assumptions C20_uniform_new_inclusive_sample_in_range.
 
 Theorem C20_sample_single_in_range :
-  widening_mul_spec -> wrapping_add_spec -> wrapping_sub_spec -> I_overflowing_sub_spec ->
   forall fuel sg dbg w n low high s r rest,
   0 < w -> (0 < n)%nat -> wf w n low -> wf w n high -> bytes_ok s ->
   tval sg w low < tval sg w high ->
   sample_single fuel sg dbg w low high s = RVal r rest ->
   wf w n r /\ tval sg w low <= tval sg w r < tval sg w high.
-Proof. exact sample_single_in_range. Qed.
+Proof. exact (sample_single_in_range widening_mul_spec_holds wrapping_add_spec_holds wrapping_sub_spec_holds I_overflowing_sub_spec_holds). Qed.
 Print Assumptions C20_sample_single_in_range.
 
 Theorem C20_uniform_new_sample_in_range :
-  widening_mul_spec -> wrapping_add_spec -> wrapping_sub_spec -> I_overflowing_sub_spec ->
   forall fuel sg dbg w n low high s r rest,
   0 < w -> (0 < n)%nat -> wf w n low -> wf w n high -> bytes_ok s ->
   tval sg w low < tval sg w high ->
   uniform_new_sample fuel sg dbg w low high s = RVal r rest ->
   wf w n r /\ tval sg w low <= tval sg w r < tval sg w high.
-Proof. exact uniform_new_sample_in_range. Qed.
+Proof. exact (uniform_new_sample_in_range widening_mul_spec_holds wrapping_add_spec_holds wrapping_sub_spec_holds I_overflowing_sub_spec_holds). Qed.
 Print Assumptions C20_uniform_new_sample_in_range.
 
 (* Rng::gen_range, spelled out for the two readings *)
@@ -266,75 +257,63 @@ Print Assumptions C20_gen_range_signed.
    (BYTES > 0 is w >= 8; the exclusive forms need w > 1: at one bit `ONE` is -1 in the signed reading.) *)
 
 Theorem C20_sample_single_inclusive_total :
-  widening_mul_spec -> wrapping_add_spec -> wrapping_sub_spec -> rem_spec -> leading_zeros_spec ->
-  U_overflowing_sub_flag_spec -> icmp_spec ->
   forall sg dbg w n low high s,
   0 < w -> (0 < n)%nat -> (0 < BYTES w n)%nat -> wf w n low -> wf w n high -> bytes_ok s ->
   tval sg w low <= tval sg w high ->
   sample_single_inclusive (fuel_for s) sg dbg w low high s = ROutOfStream \/
   exists r rest, sample_single_inclusive (fuel_for s) sg dbg w low high s = RVal r rest /\
                  wf w n r /\ tval sg w low <= tval sg w r <= tval sg w high.
-Proof. exact sample_single_inclusive_total. Qed.
+Proof. exact (sample_single_inclusive_total widening_mul_spec_holds wrapping_add_spec_holds wrapping_sub_spec_holds rem_spec_holds leading_zeros_spec_holds U_overflowing_sub_flag_spec_holds icmp_spec_holds). Qed.
 Print Assumptions C20_sample_single_inclusive_total.
 
 Theorem C20_uniform_new_inclusive_sample_total :
-  widening_mul_spec -> wrapping_add_spec -> wrapping_sub_spec -> rem_spec ->
-  U_overflowing_sub_flag_spec -> icmp_spec ->
   forall sg dbg w n low high s,
   0 < w -> (0 < n)%nat -> (0 < BYTES w n)%nat -> wf w n low -> wf w n high -> bytes_ok s ->
   tval sg w low <= tval sg w high ->
   uniform_new_inclusive_sample (fuel_for s) sg dbg w low high s = ROutOfStream \/
   exists r rest, uniform_new_inclusive_sample (fuel_for s) sg dbg w low high s = RVal r rest /\
                  (wf w n r /\ tval sg w low <= tval sg w r <= tval sg w high).
-Proof. exact uniform_new_inclusive_sample_total. Qed.
+Proof. exact (uniform_new_inclusive_sample_total widening_mul_spec_holds wrapping_add_spec_holds wrapping_sub_spec_holds rem_spec_holds U_overflowing_sub_flag_spec_holds icmp_spec_holds). Qed.
 Print Assumptions C20_uniform_new_inclusive_sample_total.
 
 Theorem C20_sample_single_total :
-  widening_mul_spec -> wrapping_add_spec -> wrapping_sub_spec -> I_overflowing_sub_spec ->
-  rem_spec -> leading_zeros_spec -> U_overflowing_sub_flag_spec -> I_overflowing_sub_flag_spec -> icmp_spec ->
   forall sg dbg w n low high s,
   1 < w -> (0 < n)%nat -> (0 < BYTES w n)%nat -> wf w n low -> wf w n high -> bytes_ok s ->
   tval sg w low < tval sg w high ->
   sample_single (fuel_for s) sg dbg w low high s = ROutOfStream \/
   exists r rest, sample_single (fuel_for s) sg dbg w low high s = RVal r rest /\
                  (wf w n r /\ tval sg w low <= tval sg w r < tval sg w high).
-Proof. exact sample_single_total. Qed.
+Proof. exact (sample_single_total widening_mul_spec_holds wrapping_add_spec_holds wrapping_sub_spec_holds I_overflowing_sub_spec_holds rem_spec_holds leading_zeros_spec_holds U_overflowing_sub_flag_spec_holds I_overflowing_sub_flag_spec_holds icmp_spec_holds). Qed.
 Print Assumptions C20_sample_single_total.
 
 Theorem C20_uniform_new_sample_total :
-  widening_mul_spec -> wrapping_add_spec -> wrapping_sub_spec -> I_overflowing_sub_spec ->
-  rem_spec -> U_overflowing_sub_flag_spec -> I_overflowing_sub_flag_spec -> icmp_spec ->
   forall sg dbg w n low high s,
   1 < w -> (0 < n)%nat -> (0 < BYTES w n)%nat -> wf w n low -> wf w n high -> bytes_ok s ->
   tval sg w low < tval sg w high ->
   uniform_new_sample (fuel_for s) sg dbg w low high s = ROutOfStream \/
   exists r rest, uniform_new_sample (fuel_for s) sg dbg w low high s = RVal r rest /\
                  (wf w n r /\ tval sg w low <= tval sg w r < tval sg w high).
-Proof. exact uniform_new_sample_total. Qed.
+Proof. exact (uniform_new_sample_total widening_mul_spec_holds wrapping_add_spec_holds wrapping_sub_spec_holds I_overflowing_sub_spec_holds rem_spec_holds U_overflowing_sub_flag_spec_holds I_overflowing_sub_flag_spec_holds icmp_spec_holds). Qed.
 Print Assumptions C20_uniform_new_sample_total.
 
 Theorem C20_gen_range_total :
-  widening_mul_spec -> wrapping_add_spec -> wrapping_sub_spec -> I_overflowing_sub_spec ->
-  rem_spec -> leading_zeros_spec -> U_overflowing_sub_flag_spec -> I_overflowing_sub_flag_spec -> icmp_spec ->
   forall sg dbg w n low high s,
   1 < w -> (0 < n)%nat -> (0 < BYTES w n)%nat -> wf w n low -> wf w n high -> bytes_ok s ->
   tval sg w low < tval sg w high ->
   gen_range (fuel_for s) sg dbg w low high s = ROutOfStream \/
   exists r rest, gen_range (fuel_for s) sg dbg w low high s = RVal r rest /\
                  (wf w n r /\ tval sg w low <= tval sg w r < tval sg w high).
-Proof. exact gen_range_total. Qed.
+Proof. exact (gen_range_total widening_mul_spec_holds wrapping_add_spec_holds wrapping_sub_spec_holds I_overflowing_sub_spec_holds rem_spec_holds leading_zeros_spec_holds U_overflowing_sub_flag_spec_holds I_overflowing_sub_flag_spec_holds icmp_spec_holds). Qed.
 Print Assumptions C20_gen_range_total.
 
 Theorem C20_gen_range_inclusive_total :
-  widening_mul_spec -> wrapping_add_spec -> wrapping_sub_spec -> rem_spec -> leading_zeros_spec ->
-  U_overflowing_sub_flag_spec -> icmp_spec ->
   forall sg dbg w n low high s,
   0 < w -> (0 < n)%nat -> (0 < BYTES w n)%nat -> wf w n low -> wf w n high -> bytes_ok s ->
   tval sg w low <= tval sg w high ->
   gen_range_inclusive (fuel_for s) sg dbg w low high s = ROutOfStream \/
   exists r rest, gen_range_inclusive (fuel_for s) sg dbg w low high s = RVal r rest /\
                  wf w n r /\ tval sg w low <= tval sg w r <= tval sg w high.
-Proof. exact gen_range_inclusive_total. Qed.
+Proof. exact (gen_range_inclusive_total widening_mul_spec_holds wrapping_add_spec_holds wrapping_sub_spec_holds rem_spec_holds leading_zeros_spec_holds U_overflowing_sub_flag_spec_holds icmp_spec_holds). Qed.
 Print Assumptions C20_gen_range_inclusive_total.
 
 (* ---------- the model's own helpers ---------- *)
